@@ -52,6 +52,16 @@ def check(prop, tier, seed):
             done.append(name)
         run.extra["apalache_inductive_invariant"] = {"module": "SendPathInd.tla", "senders": 3, "messages": "unbounded", "obligations_discharged": done[:2],
                                                      "non_vacuity": done[2]}
+        # the same invariant proved with TLAPS for ANY set of senders (SendPathProof.tla)
+        import re
+        shutil.copy(os.path.join(SPEC, "SendPathProof.tla"), apa)
+        p = sh(["tlapm", "--threads", str(min(8, NCPU)), "SendPathProof.tla"], cwd=apa, timeout=1200, check=False)
+        m = re.search(r"All (\d+) obligations? proved", p.stdout or "")
+        if not m:
+            raise Inconclusive("SPEC-ERROR: TLAPS did not prove SendPathProof.tla:\n%s" % (p.stdout or "")[-2000:])
+        run.extra["tlaps_proof"] = {"module": "SendPathProof.tla", "theorems": ["InitInv", "StepInv", "Safety: Spec => []WireConsecutive"],
+                                    "obligations": int(m.group(1)), "discharged": int(m.group(1)), "senders": "any set", "messages": "unbounded",
+                                    "scope": "the model of the send path (one lock, counter, enqueue), not the Go code"}
     finally:
         shutil.rmtree(apa, ignore_errors=True)
     # schedules: every release order of n senders at every gate (covers the counterexamples of the weakened variants)
